@@ -99,7 +99,11 @@ def id_star(graph: NxMixedGraph, event: Event, *, _number_recursions: int = 0) -
         raise ConflictUnidentifiable(cf_subgraph, new_event, conflicts)
 
     # Line 9
-    return id_star_line_9(cf_subgraph)
+    # the effect is on the variables of the event only, so its remaining ancestors are summed out
+    ancestors_not_in_event = {node.get_base() for node in cf_subgraph.nodes()} - {
+        variable.get_base() for variable in new_event
+    }
+    return Sum.safe(id_star_line_9(cf_subgraph), ancestors_not_in_event, simplify=True)
 
 
 class ConflictUnidentifiable(Unidentifiable):
